@@ -235,7 +235,8 @@ def install():
     def update(self, scIdx):
         before = {t.fullId: bool(t.get("scheduled", scIdx)) for t in self.tasks if not t.leaf()}
         orig_update(self, scIdx)
-        for t in self.tasks:
+        # inner containers are completed before the containers that enclose them
+        for t in reversed(list(self.tasks)):
             if not t.leaf() and t.get("scheduled", scIdx) and not before[t.fullId]:
                 emit(
                     "RollUp",
